@@ -184,6 +184,7 @@ def main():
             print(f"KNOWN-FINDING: property=C17 {key}: {kf[key]}")
             known_hit.append(key)
             continue
+        violations += 1
         if exit_code:
             continue  # one VIOLATION line per run; further unknown mismatches are listed in the evidence
         job, dropped = minimise_conformance(mm, tmp)
@@ -194,21 +195,23 @@ def main():
         print(f"conformance mismatch in job {mm['job_index']} ({job.get('class') or job.get('driver')}) at {mm['mismatch']['what']}; {dropped} operations dropped by minimisation")
         print("  " + json.dumps(mm["mismatch"])[:600])
         print(f"VIOLATION property=C17 replay={path}")
-        exit_code, violations = 1, 1
-    v = r1["violation"]
-    if v and not exit_code:
+        exit_code = 1
+    for v in r1.get("violations", []):
         key = v["finding_key"]
         if key in kf:
             print(f"KNOWN-FINDING: property=C17 {key}: {kf[key]}")
             known_hit.append(key)
-        else:
-            os.makedirs(os.path.join(VERIF, "replays"), exist_ok=True)
-            path = os.path.join(VERIF, "replays", f"C17-seed{a.seed}-s{v['scenario_index']}.json")
-            json.dump({"property": "C17", **v, "seed": a.seed}, open(path, "w"), indent=1)
-            print(f"violation class {v['class']} in {v['case']['driver']} (n={len(v['case']['x'])}, fn={v['case']['fn']}) under plan {v['plan']}; minimised in {v['minimise_steps']} steps")
-            print(f"  {v['message']}")
-            print(f"VIOLATION property=C17 replay={path}")
-            exit_code, violations = 1, 1
+            continue
+        violations += 1
+        if exit_code:
+            continue  # one VIOLATION line per run; the other keys are listed in the evidence
+        os.makedirs(os.path.join(VERIF, "replays"), exist_ok=True)
+        path = os.path.join(VERIF, "replays", f"C17-seed{a.seed}-s{v['scenario_index']}.json")
+        json.dump({"property": "C17", **v, "seed": a.seed}, open(path, "w"), indent=1)
+        print(f"violation class {v['class']} in {v['case']['driver']} (n={len(v['case']['x'])}, fn={v['case']['fn']}) under plan {v['plan']}; minimised in {v['minimise_steps']} steps")
+        print(f"  {v['message']}")
+        print(f"VIOLATION property=C17 replay={path}")
+        exit_code = 1
     wall = time.time() - t0
     sim_wall = max(r1["wall_s"], 1e-9)
     ev = {
@@ -245,6 +248,7 @@ def main():
                            "F2 a fault planned for invocation k>=2 never fires and the outcome equals the fault-free run bit for bit",
                            "F4 the fault-free run is deterministic"],
             "known_findings_hit": known_hit,
+            "fault_tier_finding_keys": [v["finding_key"] for v in r1.get("violations", [])],
             "exhaustive": True,
         },
         "assumptions": ["evaluations / distinct_nontrivial count the fault tier only; the conformance tier is reported separately under coverage.conformance_tier and contains no fault or schedule",
